@@ -334,7 +334,7 @@ def main(tier, seed, only=None):
     for f in (G.get_dimensionality, G.get_clusters, G.get_radii):
         rep.function(f)
     jobs = [("H09a", f"H09a:order{o}", h09a(o)) for o in ([0, 1], [1, 0])]
-    cells_b = ["ortho"] if tier == "quick" else ["ortho", "tricl", "plate"]
+    cells_b = ["ortho", "tricl"] if tier == "quick" else ["ortho", "tricl", "plate"]
     jobs += [("H09b", f"H09b:{c}:{''.join('T' if x else 'F' for x in pbc)}", h09b(c, pbc)) for c in cells_b for pbc in CELLS.PBCS]
     jobs += [("H09c", "H09c:TTF:1", h09c((True, True, False), 1))]
     if tier == "thorough":
